@@ -351,8 +351,16 @@ class Rig:
             self.t.opened = False
             self.t._wake.set()
 
+    def note_step_exception(self, exc):
+        """a device-facing step ended with exc: once the transport itself reported the lost connection, later steps
+        fail without the device's doing"""
+        if exc is not None and type(exc).__name__ == "ScrapliConnectionError":
+            self.dead_seen = True
+
     # ---- instrumentation (instance attributes only)
     def mark(self, m):
+        if m == "topen":
+            self.dead_seen = False
         self.marks.append(m)
         self.net.trace.append(("mark", m, self.usable()))
 
@@ -360,8 +368,8 @@ class Rig:
         if self.kind == "sim":
             return bool(self.t.opened and not self.t.dead)
         if self.stack == "sync":
-            return bool(self.t.socket)
-        return self.t.stdin is not None and self.t.stdout is not None
+            return bool(self.t.socket) and not self.dead_seen
+        return self.t.stdin is not None and self.t.stdout is not None and not self.dead_seen
 
     def _instrument(self):
         conn, t, rig = self.conn, self.t, self
@@ -492,8 +500,7 @@ class Rig:
             rig.depth -= 1
             if top:
                 rig.net.trace.append(("actend", tag, type(exc).__name__ if exc is not None else None))
-                if exc is not None and type(exc).__name__ != "ScrapliTimeout":
-                    rig.dead_seen = True     # (real rigs) the session is gone: later steps fail without the device's doing
+                rig.note_step_exception(exc)
 
         if is_async:
             async def w(*a, **k):
@@ -532,12 +539,27 @@ class Rig:
         read = t.read
         spin = [0]
         telnet = self.kind != "sim"
+        errs = [0]
+
+        def conn_error():
+            # a caller that swallows the connection error and tries again (in-channel telnet login) would go round
+            # for ever on a peer that is gone: the operation's timer ends that
+            errs[0] += 1
+            if errs[0] >= EOF_SPIN_LIMIT:
+                errs[0] = 0
+                rig._timeout_fires()
+
         if self.stack == "sync":
             def _read():
                 try:
                     buf = read()
                 except SimStall:
                     rig._timeout_fires()
+                except ScrapliConnectionError:
+                    if telnet:
+                        conn_error()
+                    raise
+                errs[0] = 0
                 if telnet and not buf and t._eof:
                     spin[0] += 1
                     if spin[0] >= EOF_SPIN_LIMIT:
@@ -552,6 +574,11 @@ class Rig:
                     buf = await read()
                 except SimStall:
                     rig._timeout_fires()
+                except ScrapliConnectionError:
+                    if telnet:
+                        conn_error()
+                    raise
+                errs[0] = 0
                 if telnet and not buf and t._eof:
                     spin[0] += 1
                     if spin[0] >= EOF_SPIN_LIMIT:
@@ -640,6 +667,10 @@ def derive_events(seg, kind):
         elif x[0] == "stallfire":
             if cur is not None:
                 evs[cur][0] = "s"
+        elif x[0] == "actend" and kind != "sim":
+            # the Telnet transport reported the lost connection itself (no timer involved)
+            if cur is not None and x[2] == "ScrapliConnectionError" and evs[cur][0] == "o":
+                evs[cur][0] = "d"
         elif x[0] == "R" and kind != "sim" and cur is not None:
             # what this recv() result does to the Telnet byte machine, computed from the bytes alone
             tn = evs[cur][1] or [0, 0, 0, 0, 0]
@@ -675,8 +706,7 @@ def _operate_sync(rig, conn):
         conn.send_command("show version")
     except Exception as e:
         rig.net.trace.append(("actend", "operate", type(e).__name__))
-        if type(e).__name__ != "ScrapliTimeout":
-            rig.dead_seen = True
+        rig.note_step_exception(e)
         raise
     rig.net.trace.append(("actend", "operate", None))
 
@@ -687,8 +717,7 @@ async def _operate_async(rig, conn):
         await conn.send_command("show version")
     except Exception as e:
         rig.net.trace.append(("actend", "operate", type(e).__name__))
-        if type(e).__name__ != "ScrapliTimeout":
-            rig.dead_seen = True
+        rig.note_step_exception(e)
         raise
     rig.net.trace.append(("actend", "operate", None))
 
